@@ -192,6 +192,8 @@ class Canon:
       return ('Q', tag, sym(type(x)), tuple(self.go(e) for e in x))
     if isinstance(x, (set, frozenset)):
       return ('Z', tag, sym(type(x)), tuple(sorted((self.go(e) for e in x), key=repr)))
+    if isinstance(x, types.SimpleNamespace):
+      return ('NS', tag, tuple((k, self.go(v)) for k, v in sorted(vars(x).items())))
     if self.mode == 'built':
       return self.built_object(x, tag)
     if hasattr(x, 'vt_bound'):
